@@ -728,6 +728,25 @@ pub fn deviations(bytes: &[u8]) -> Vec<(String, Vec<(usize, Vec<u8>)>, bool)> {
         let zeros: Vec<(usize, Vec<u8>)> = (mini_count..p.minifat.len()).map(|k| (cell_off(k), le32(0))).collect();
         out.push(("over-long MiniFAT (zero padded)".into(), zeros, true));
     }
+    // over-long MiniFAT whose surplus lies in a MiniFAT sector of its own: a free sector at the end of the
+    // file is linked behind the last MiniFAT sector (FAT, header count adjusted) and holds non-free cells
+    if let (Some(&last_mf), true) = (p.minifat_sectors.last(), p.num_sectors >= 1) {
+        let f = p.num_sectors - 1;
+        let fat_cell_off = |sec: u32| p.fat_sectors.get(sec as usize / cells).map(|&fs| p.sector_off(fs) + 4 * (sec as usize % cells));
+        if p.fat.get(f as usize) == Some(&spec::FREESECT) {
+            if let (Some(o_last), Some(o_f)) = (fat_cell_off(last_mf), fat_cell_off(f)) {
+                for (label, first_cell) in [("ENDOFCHAIN", spec::ENDOFCHAIN), ("0", 0u32)] {
+                    let mut content = vec![0xFFu8; p.sector_len];
+                    content[..4].copy_from_slice(&first_cell.to_le_bytes());
+                    out.push((
+                        format!("over-long MiniFAT in an extra MiniFAT sector ({})", label),
+                        vec![(o_last, le32(f)), (o_f, le32(spec::ENDOFCHAIN)), (64, le32(p.hdr_num_minifat + 1)), (p.sector_off(f), content)],
+                        true,
+                    ));
+                }
+            }
+        }
+    }
     out
 }
 
